@@ -15,7 +15,8 @@ open Py Xs.Bind Xs.Dict Proofs.C04 Proofs.C04Witness
 
 /-- **dict_rt**: for both dictionary factories, every parser configuration and every
 environment: an instance in the fragment `valOKj` (typed str/int/bool, model-class, list and
-wrapped-list fields; `None` only where the field default is `None`; nested instances
+wrapped-list fields, `xs:anyAttribute` maps, wildcard fields — single, list, mixed — holding generic
+`AnyElement`s of any nesting, primitives and `None`; `None` only where the field default is `None`; nested instances
 unambiguous in their candidate pool) encodes to a JSON-native dictionary, and decoding that
 dictionary into the same class has exactly one admissible result: the instance itself. -/
 theorem dict_rt (e : BEnv) (Γ : Ctx) (fac : Factory) (cfg : ParserConfig) (n : Nat) (c : ClassId) (v : Val)
@@ -25,9 +26,8 @@ theorem dict_rt (e : BEnv) (Γ : Ctx) (fac : Factory) (cfg : ParserConfig) (n : 
   obtain ⟨n', hn⟩ := valOKj_succ h
   subst hn
   obtain ⟨fs, _, _, hv, _⟩ := valOKj_unpack h
-  subst hv
   refine ⟨.obj kvs, ?_, hnat, ?_⟩
-  · simpa only [encode] using henc
+  · rw [(encode_of_object Γ fac {} _ hv).1]; exact henc
   · simp only [decode, verifyType, J.isArr, Bool.false_eq_true, if_false]
     exact hdec cfg
 
@@ -38,6 +38,11 @@ theorem dict_rt_partial (e : BEnv) (Γ : Ctx) (fac : Factory) (cfg : ParserConfi
   dict_rt e Γ fac cfg n c v h
 
 example : ctxOKj okwCtx = true := by rfl
+/-- an attributes map and mixed wildcard content (nested generic elements, text, a number, `None`,
+an `AnyElement` without qname) are inside the fragment, for both factories -/
+example : valOKj benv0 genwCtx .dict 4 "G".toList genw_value = true
+    ∧ valOKj benv0 genwCtx .filterNone 4 "G".toList genw_value = true
+    ∧ valOKj benv0 anywCtx .filterNone 3 "W".toList anyw_value = true := ⟨by rfl, by rfl, by rfl⟩
 example : valOKj benv0 okwCtx .dict 3 "Doc".toList okw_value = true := by rfl
 example : valOKj benv0 okwCtx .filterNone 3 "Doc".toList okw_value = true := by rfl
 /-- a field of a base class with a loaded subclass is inside the fragment when the keys decide -/
@@ -66,7 +71,7 @@ theorem list_rt (e : BEnv) (Γ : Ctx) (fac : Factory) (cfg : ParserConfig) (n : 
     obtain ⟨n', hn⟩ := valOKj_succ (h v hv)
     subst hn
     obtain ⟨fs, _, _, hveq, _⟩ := valOKj_unpack (h v hv)
-    subst hveq; rfl
+    exact (encode_of_object Γ fac {} _ hveq).2
   have hall : ∀ v ∈ vs, ∃ j, encTopItem Γ fac {} n v = .ok j := by
     intro v hv
     obtain ⟨kvs, hk, _⟩ := rt_all e Γ fac n c v (h v hv)
